@@ -221,3 +221,78 @@ Definition to_json_string_length (flags : Z) (v : jv) : list byte * Z :=
   let t := serialize (flags_of flags) 0 v in (t, zlen t).
 
 End WithOracle.
+
+(* ------------------------------------------------------------------ trees reached through histories *)
+(* The property speaks of "every tree built through the API": besides the constructors, a tree is
+   reached by json_object_deep_copy, by the in-place setters json_object_set_double / _set_int64 /
+   _set_uint64 / _set_boolean / _set_string_len, by replacing a child (json_object_array_put_idx on
+   an existing index, json_object_object_add on an existing key) and by deleting one
+   (json_object_array_del_idx, json_object_object_del).  What the serializer reads of a node is
+   its value and, for a double, the retained text; [jv] holds exactly that, so a history is a
+   function on [jv].  A node is addressed by the positions of the children on the way down. *)
+Fixpoint nth_upd {A} (n : nat) (f : A -> A) (l : list A) : list A :=
+  match l, n with
+  | [], _ => []
+  | x :: r, O => f x :: r
+  | x :: r, S n' => x :: nth_upd n' f r
+  end.
+Fixpoint nth_del {A} (n : nat) (l : list A) : list A :=
+  match l, n with
+  | [], _ => []
+  | _ :: r, O => r
+  | x :: r, S n' => x :: nth_del n' r
+  end.
+
+(* apply [f] to the node at [path]; a path that leaves the tree (index out of range, a scalar
+   or NULL on the way) addresses nothing *)
+Fixpoint jv_at (path : list nat) (f : jv -> jv) (v : jv) : jv :=
+  match path with
+  | [] => f v
+  | i :: p =>
+      match v with
+      | JArr l => JArr (nth_upd i (jv_at p f) l)
+      | JObj l => JObj (nth_upd i (fun kv => (fst kv, jv_at p f (snd kv))) l)
+      | _ => v
+      end
+  end.
+
+(* json_object_set_double: a node of another type is left alone (returns 0); the retained text of
+   json_object_new_double_s / of the parser is dropped (the serializer is reset to the default) *)
+Definition set_double_node (bits : Z) (v : jv) : jv := match v with JDouble _ _ => JDouble bits None | _ => v end.
+(* json_object_set_int64 / _set_uint64: any int node, whatever its current signedness *)
+Definition set_int64_node (z : Z) (v : jv) : jv := match v with JInt _ | JUint _ => JInt z | _ => v end.
+Definition set_uint64_node (z : Z) (v : jv) : jv := match v with JInt _ | JUint _ => JUint z | _ => v end.
+Definition set_boolean_node (b : bool) (v : jv) : jv := match v with JBool _ => JBool b | _ => v end.
+Definition set_string_node (s : list byte) (v : jv) : jv := match v with JStr _ => JStr s | _ => v end.
+(* child [i] of a container: replaced in place (same index / same member name and position), deleted *)
+Definition replace_child (i : nat) (c : jv) (v : jv) : jv :=
+  match v with
+  | JArr l => JArr (nth_upd i (fun _ => c) l)
+  | JObj l => JObj (nth_upd i (fun kv => (fst kv, c)) l)
+  | _ => v
+  end.
+Definition delete_child (i : nat) (v : jv) : jv :=
+  match v with JArr l => JArr (nth_del i l) | JObj l => JObj (nth_del i l) | _ => v end.
+
+Inductive hop :=
+| HCopy                                        (* json_object_deep_copy: the copy has the same value and retained texts *)
+| HSetDouble (path : list nat) (bits : Z)
+| HSetInt64 (path : list nat) (z : Z)
+| HSetUint64 (path : list nat) (z : Z)
+| HSetBoolean (path : list nat) (b : bool)
+| HSetString (path : list nat) (s : list byte)
+| HReplace (path : list nat) (i : nat) (c : jv)
+| HDelete (path : list nat) (i : nat).
+
+Definition hop_apply (h : hop) (v : jv) : jv :=
+  match h with
+  | HCopy => v
+  | HSetDouble p bits => jv_at p (set_double_node bits) v
+  | HSetInt64 p z => jv_at p (set_int64_node z) v
+  | HSetUint64 p z => jv_at p (set_uint64_node z) v
+  | HSetBoolean p b => jv_at p (set_boolean_node b) v
+  | HSetString p s => jv_at p (set_string_node s) v
+  | HReplace p i c => jv_at p (replace_child i c) v
+  | HDelete p i => jv_at p (delete_child i) v
+  end.
+Definition hist_apply (hs : list hop) (v : jv) : jv := fold_left (fun t h => hop_apply h t) hs v.
